@@ -1,6 +1,6 @@
 """C12 - results depend only on the input: no state leaks, no hash-seed dependence.
 
-histories  every sequence of <=2 (quick) / <=3 (thorough) inputs from a 15-input alphabet (valid modules with / without
+histories  every sequence of <=2 (quick) / <=3 (thorough) inputs from a 17-input alphabet (valid modules with / without
            MODULE-IDENTITY and REVISION, with an enterprise OID, with a table, SMIv1 style, importing another input;
            lexical error on line 4, unterminated MACRO, text ending inside a comment, truncated text, syntax error after
            a multi-line string, duplicate symbol) fed to ONE parser, ONE symbol-table + code generator pair (JSON and
@@ -23,7 +23,7 @@ from mc import core, env
 from mc.env import error
 
 BOUNDS = {
-    'quick': 'all sequences of <=2 inputs (15-input alphabet) on parser / generators / compiler; triple repetition; 8 hash seeds',
+    'quick': 'all sequences of <=2 inputs (17-input alphabet) on parser / generators / compiler; triple repetition; 8 hash seeds',
     'thorough': 'all sequences of <=3 inputs; 64 hash seeds',
 }
 ASSUMPTIONS = ['time stamp, host and user lines of generated output are masked',
@@ -140,7 +140,22 @@ omiFlags OBJECT-TYPE SYNTAX BITS { a(0), b(1) } MAX-ACCESS read-only STATUS curr
 END
 """
 
-INPUTS = [('E_UNKTYPE', 'NU-MIB', E_UNKTYPE), ('E_UNKPARENT', 'XI-MIB', E_UNKPARENT), ('E_GEN', 'OMICRON-MIB', E_GEN),
+V_MODE_INT = """PI-MIB DEFINITIONS ::= BEGIN
+IMPORTS OBJECT-TYPE, enterprises FROM SNMPv2-SMI TEXTUAL-CONVENTION FROM SNMPv2-TC;
+piRoot OBJECT IDENTIFIER ::= { enterprises 1313 }
+Mode ::= TEXTUAL-CONVENTION STATUS current DESCRIPTION "m" SYNTAX INTEGER { off(0), on(1), auto(2) }
+piMode OBJECT-TYPE SYNTAX Mode MAX-ACCESS read-write STATUS current DESCRIPTION "o" DEFVAL { auto } ::= { piRoot 1 }
+END
+"""
+V_MODE_OCT = """RHO-MIB DEFINITIONS ::= BEGIN
+IMPORTS OBJECT-TYPE, enterprises FROM SNMPv2-SMI TEXTUAL-CONVENTION FROM SNMPv2-TC;
+rhoRoot OBJECT IDENTIFIER ::= { enterprises 1414 }
+Mode ::= TEXTUAL-CONVENTION STATUS current DESCRIPTION "m" SYNTAX OCTET STRING (SIZE (1))
+rhoMode OBJECT-TYPE SYNTAX Mode MAX-ACCESS read-write STATUS current DESCRIPTION "o" DEFVAL { '0A'H } ::= { rhoRoot 1 }
+END
+"""
+
+INPUTS = [('V_MODE_INT', 'PI-MIB', V_MODE_INT), ('V_MODE_OCT', 'RHO-MIB', V_MODE_OCT), ('E_UNKTYPE', 'NU-MIB', E_UNKTYPE), ('E_UNKPARENT', 'XI-MIB', E_UNKPARENT), ('E_GEN', 'OMICRON-MIB', E_GEN),
           ('V_REV', 'ALPHA-MIB', V_REV), ('V_NOID', 'BETA-MIB', V_NOID), ('V_TBL', 'GAMMA-MIB', V_TBL), ('V_V1', 'DELTA-MIB', V_V1),
           ('V_IMP', 'EPSILON-MIB', V_IMP), ('V_NOENT', 'ZETA-MIB', V_NOENT), ('E_LEX4', 'ETA-MIB', E_LEX4),
           ('E_MACRO', 'THETA-MIB', E_MACRO), ('V_COMMENT', 'IOTA-MIB', V_COMMENT), ('E_TRUNC', 'KAPPA-MIB', E_TRUNC),
@@ -179,6 +194,7 @@ class Gens(object):
         self.sym = env.SymtableCodeGen()
         self.gen = env.make_codegen(backend)
         self.table = {}
+        self.handed_back = []   # (label, MibInfo object, its observation at the time it was returned)
         for b in env.BASE_NAMES:
             self.feed(b, env.base_text(b), base=True)
 
@@ -196,6 +212,7 @@ class Gens(object):
                     continue
                 sinfo = info_obs(info)
                 info, data = self.gen.genCode(tree, self.table, comments=['c'], genTexts=True)
+                self.handed_back.append((name, info, json.dumps(info_obs(info), sort_keys=True)))
                 out.append(('ok', sinfo['revision'], sinfo['imported'], json.dumps(info_obs(info), sort_keys=True),
                             hashlib.sha1(mask(data).encode()).hexdigest()))
             except error.PySmiError as exc:
@@ -223,12 +240,10 @@ def make_compiler(backend, written):
     return comp
 
 
-def compile_obs(comp, written, name):
-    del written[:]
-    try:
-        res = comp.compile(name, genTexts=True)
-    except Exception as exc:
-        return ('escaped', type(exc).__name__)
+comp_last = [None]
+
+
+def status_obs(res):
     out = {}
     for k, st in res.items():
         o = {'status': str(st)}
@@ -240,7 +255,17 @@ def compile_obs(comp, written, name):
         o['oids'] = sorted(getattr(st, 'oids', ()) or ())
         o['compliance'] = list(getattr(st, 'compliance', ()) or ())
         out[k] = o
-    return json.dumps(out, sort_keys=True), tuple(sorted(written))
+    return json.dumps(out, sort_keys=True)
+
+
+def compile_obs(comp, written, name):
+    del written[:]
+    try:
+        res = comp.compile(name, genTexts=True)
+    except Exception as exc:
+        return ('escaped', type(exc).__name__)
+    comp_last[0] = res
+    return status_obs(res), tuple(sorted(written))
 
 
 _fresh = {}
@@ -302,8 +327,11 @@ class Histories(object):
             w = []
             comp = make_compiler(level.split(':')[1], w)
             step = lambda i: compile_obs(comp, w, INPUTS[i][1])
+        kept = []
         for pos, i in enumerate(seq):
             got = step(i)
+            if level.startswith('compiler') and isinstance(got, tuple):
+                kept.append((INPUTS[i][0], comp_last[0], got[0]))
             want = fresh_obs(level, i)
             obs.append(got)
             if got != want:
@@ -312,6 +340,23 @@ class Histories(object):
                            'sequence %r position %d\non the used object: %r\non fresh objects:  %r' % (
                                [INPUTS[j][0] for j in seq], pos, got, want)))
                 break
+        # what was handed back earlier must still read the same after later inputs went through the same object
+        if level.startswith('gens') and not vs:
+            for label, info, then in g.handed_back:
+                now = json.dumps(info_obs(info), sort_keys=True)
+                if now != then:
+                    vs.append(('C12|history|%s|earlier-result-changed-retroactively' % level,
+                               'sequence %r: the MibInfo returned for %s read %s when returned and reads %s now' % (
+                                   [INPUTS[j][0] for j in seq], label, then, now)))
+                    break
+        if level.startswith('compiler') and not vs:
+            for label, res, then in kept:
+                now = status_obs(res)
+                if now != then:
+                    vs.append(('C12|history|%s|earlier-result-changed-retroactively' % level,
+                               'sequence %r: the result of compile(%s) read %s when returned and reads %s now' % (
+                                   [INPUTS[j][0] for j in seq], label, then, now)))
+                    break
         return repr(obs[-1])[:200], vs, len(seq)
 
 
